@@ -443,17 +443,15 @@ class ThreadPool(object):
         :param timeout: Maximum time to wait (in seconds)
         :return: True if the queue has been emptied, else False
         """
-        if self._queue.empty():
-            # Nothing to wait for...
-            return True
-        elif timeout is None:
-            # Use the original join
+        if timeout is None:
+            # Use the original join: waits for queued and running tasks
             self._queue.join()
             return True
         else:
             # Wait for the condition
             with self._queue.all_tasks_done:
-                self._queue.all_tasks_done.wait(timeout)
+                if self._queue.unfinished_tasks:
+                    self._queue.all_tasks_done.wait(timeout)
                 return not bool(self._queue.unfinished_tasks)
 
     def __run(self):
